@@ -531,6 +531,8 @@ func (srv *server) sendWillLocked(msg *gmqtt.Message, clientID string) {
 	if req.Message == nil {
 		return
 	}
+	// publish the message as the hooks left it
+	msg = req.Message
 	if msg.Retained {
 		// [MQTT-3.1.2-16] [MQTT-3.1.2-17]
 		if len(msg.Payload) == 0 {
